@@ -115,6 +115,7 @@ def make_targets(a, prog):
 
 
 def run(ctx):
+    proofs__ = common.proof_status_async([(FAMILY, PROPFILE)] + gen_market.PROOFS + gen_asset.PROOFS + gen_main2.PROOFS + gen_clear2.PROOFS + gen_plumb.PROOFS)      # re-checked in the background while the cases run
     out, metas = GC.run_targets(
         ctx, PID, make_targets, 50, 600, kmin=1,
         rule=('same program generator as C01; targets: for every goods/labour/money/deposit market of the program '
@@ -131,7 +132,7 @@ def run(ctx):
                        'keeps that constant as a summand: the identity is stated up to that constant 0']
     # booking-group models with theorems for ALL zones (coq/GenMarket, coq/GenAsset), each with its own
     # state correspondence and oracle
-    out.proof = common.proof_status_many([(FAMILY, PROPFILE)] + gen_market.PROOFS + gen_asset.PROOFS + gen_main2.PROOFS + gen_clear2.PROOFS + gen_plumb.PROOFS)
+    out.proof = proofs__.result()
     gen_market.extra(ctx, out)
     gen_asset.extra(ctx, out)
     # (the whole-pipeline correspondence of coq/GenMain2 runs in the C01, C05 and C07 checks; here its theorems are re-checked)
